@@ -13,11 +13,11 @@ RULE = ('join correspondence: (hook level, feature verif_hooks) Line::extents, L
         'search p_thick_join: pixels() = draw(), all pixels inside the styled bounding box, and for strokes with segments >= 6 widths and interior '
         'angles >= 15 degrees a real-number reference: every stroke pixel lies within 1.2 * reach + 1.5 of a segment or within the miter limit '
         '(2 widths + 2) of a join, and the inner 55 percent of the stroke band along every segment is covered')
-PARTIAL = ['the input-only composition theorems (C07_join_*_translate_range) hold for vertices within +-V with V + 6*width + 8 <= 1280 '
-           '(e.g. coordinates within +-1024 with stroke <= 41; uses the overflow builder's C08_join_point_bound); beyond that range the composition theorems C07_join_polyline_* / C07_join_triangle_* carry the '
+PARTIAL = ['the input-only composition theorems (C07_join_*_translate_range) hold for vertices within +-V with V + 6*width + 8 <= 8191 '
+           '(e.g. coordinates within +-7000 with stroke <= 197; Proofs/JoinPointBound.v ports the argument of C08_join_point_bound); beyond that range the composition theorems C07_join_polyline_* / C07_join_triangle_* carry the '
            'computable hypotheses poly_hyps / tri_hyps (no used rounded intersection reaches the saturating cast; segment corners within +-2^29), '
            'which the model oracle evaluates on every generated case (suites join_poly_hyp, join_tri_hyp: true on all inputs up to +-2^13, '
-           'widths <= 64); a proof of them beyond +-1280 for the edge lines (up to the +-2^13 in which the unbounded model equals i32 arithmetic) is OPEN (Proofs/JoinTri.v, last comment)']
+           'widths <= 64); beyond +-8191 for the edge lines the unbounded model no longer equals the i32 arithmetic of the code anyway (Proofs/JoinTri.v, last comment)']
 ASSUMPTIONS = ['join theorems: the saturating cast of round_div is modelled; theorems that go through it assume it is not reached '
                '(isect_nosat / join_nosat / poly_nosat, computable predicates of the input; guaranteed for all line pairs within +-511 by '
                'C07_join_intersection_translate); all other i32/i64 arithmetic of the join code is modelled unbounded: model and code agree '
